@@ -1,2 +1,155 @@
-import EventppVerif.Util.Removers
-import EventppVerif.Util.Wrappers
+import EventppVerif.Util.RemoversAux
+/-
+  Property C15 — no listener added through a ScopedRemover outlives its remover.
+
+  Model (Util/Removers.lean): a world `RW` of Spec-level callback lists (`SList`; that the real
+  lists behave like them is C01/C02), the live remover objects `rems` (name ↦ target list and
+  recorded handles), a global handle counter `nextId` and the ghost set `via` of all handles ever
+  returned by an `append/prepend/insert` made *through a remover*.  `step w op` performs one
+  operation of `ROp` (remover construction, add through a remover, remove through a remover,
+  reset, setCallbackList, move construction, move assignment, swap, destruction, and direct
+  `append` / `remove` on a list), `run` a sequence of them.
+
+  All theorems quantify over every world satisfying the invariant `Resp` (defined in
+  Util/RemoversAux.lean and spelled out by `C15_Resp_def`), which holds in every world reachable
+  from the empty world by any sequence of operations (`C15_invariant`), and over all remover names,
+  list ids, handles and callback ids.  All proofs are in Util/RemoversAux.lean.
+-/
+namespace Evp.Rem
+open Evp
+
+/-- What the invariant `Resp w` says, in full:
+    (a) the names of the live removers are unique;
+    (b) every handle present in a list has been issued (`< nextId`), occurs once in that list and
+        in no other list; every handle of `via` has been issued;
+    (c) every handle recorded by a live remover is in `via`, is recorded once by that remover and
+        by no other live remover;
+    (d) **responsibility**: every handle that was added through a remover and is still present in
+        a list `l` is recorded by a live remover whose target is `l`. -/
+theorem C15_Resp_def (w : RW) : Resp w ↔
+    (w.rems.map (·.1)).Nodup ∧
+    (∀ l h, (w.lists l).present h = true → h < w.nextId) ∧
+    (∀ l, (w.lists l).ids.Nodup) ∧
+    (∀ l l' h, (w.lists l).present h = true → (w.lists l').present h = true → l = l') ∧
+    (∀ h ∈ w.via, h < w.nextId) ∧
+    (∀ r v, (r, v) ∈ w.rems → ∀ h ∈ v.items, h ∈ w.via) ∧
+    (∀ r v, (r, v) ∈ w.rems → v.items.Nodup) ∧
+    (∀ r v r' v' h, (r, v) ∈ w.rems → (r', v') ∈ w.rems → h ∈ v.items → h ∈ v'.items → r = r') ∧
+    (∀ h ∈ w.via, ∀ l, (w.lists l).present h = true →
+      ∃ r v, (r, v) ∈ w.rems ∧ h ∈ v.items ∧ v.target = some l) :=
+  ⟨fun ⟨a, b, c, d, e, f, g, h, i⟩ => ⟨a, b, c, d, e, f, g, h, i⟩,
+   fun ⟨a, b, c, d, e, f, g, h, i⟩ => ⟨a, b, c, d, e, f, g, h, i⟩⟩
+
+/-- `Resp` is preserved by every single operation, from every world satisfying it. -/
+theorem C15_invariant_step (w : RW) (H : Resp w) (op : ROp) : Resp (step w op).1 :=
+  Resp_step H op
+
+/-- **C15 (invariant).** `Resp` holds after every sequence of operations from the empty world. -/
+theorem C15_invariant (ops : List ROp) : Resp (run {} ops).1 :=
+  Resp_run Resp_init ops
+
+/-- **C15 (responsibility).** After every sequence of operations: a listener that was added
+    through a remover and is still attached to list `l` is recorded by a remover that is alive and
+    targets `l` — whatever moves, swaps, resets and re-targetings happened in between. -/
+theorem C15_responsibility (ops : List ROp) (h : Hd) (hv : h ∈ (run {} ops).1.via) (l : Nat)
+    (hp : ((run {} ops).1.lists l).present h = true) :
+    ∃ r v, (r, v) ∈ (run {} ops).1.rems ∧ h ∈ v.items ∧ v.target = some l :=
+  (C15_invariant ops).resp h hv l hp
+
+/-- **C15 (nothing outlives the removers).** After every sequence of operations that leaves no
+    remover alive, no listener ever added through a remover is attached to any list. -/
+theorem C15_gone (ops : List ROp) (he : (run {} ops).1.rems = []) :
+    ∀ h ∈ (run {} ops).1.via, ∀ l, ((run {} ops).1.lists l).present h = false :=
+  gone_of_no_removers (C15_invariant ops) he
+
+/-- **C15 (stays attached).** A listener `h` recorded by the live remover `r` (target `l`) and
+    attached to `l` stays attached to `l` under every operation except those of `MayDetach r l h`:
+    destroying, resetting, re-targeting (to another list) or move-assigning into `r`, removing
+    `h` through `r`, and removing `h` from `l` directly.  (Who is responsible afterwards is given
+    by the invariant.) -/
+theorem C15_stays (w : RW) (H : Resp w) (r l : Nat) (v : Remover) (h : Hd)
+    (hr : getRem w r = some v) (hi : h ∈ v.items) (ht : v.target = some l)
+    (hp : (w.lists l).present h = true) (op : ROp) (hop : ¬ MayDetach r l h op) :
+    ((step w op).1.lists l).present h = true :=
+  stays H hr hi ht hp op hop
+
+/-- **C15 (detached when the remover ends).** When the live remover `r` with target `l` is
+    destroyed, reset, or re-targeted to another list (`EndsOp r l op`), none of the handles it had
+    recorded is present in any list afterwards. -/
+theorem C15_detach_on_end (w : RW) (H : Resp w) (r l : Nat) (v : Remover)
+    (hr : getRem w r = some v) (ht : v.target = some l) (op : ROp) (hop : EndsOp r l op) :
+    ∀ h ∈ v.items, ∀ l', ((step w op).1.lists l').present h = false :=
+  detach_on_end H hr ht hop
+
+/-- … and the remover is then gone (destroy), or alive with no records and the same (reset) or
+    the new (setCallbackList) target. -/
+theorem C15_after_end (w : RW) (r l : Nat) (v : Remover)
+    (hr : getRem w r = some v) (ht : v.target = some l) :
+    getRem (step w (.rdestroy r)).1 r = none ∧
+    getRem (step w (.rreset r)).1 r = some ⟨some l, []⟩ ∧
+    ∀ l', l' ≠ l → getRem (step w (.rtarget r l')).1 r = some ⟨some l', []⟩ :=
+  after_end hr ht
+
+/-- **C15 (move assignment).** After `dst = std::move(src)` of two different live removers:
+    nothing the destination had recorded is present in any list; every other handle is present
+    exactly where it was (in particular the source's listeners, which are none of the
+    destination's); the destination now has the source's target and records, the source keeps its
+    target and records nothing. -/
+theorem C15_move_assign (w : RW) (H : Resp w) (dst src : Nat) (d v : Remover) (hne : dst ≠ src)
+    (hd : getRem w dst = some d) (hs : getRem w src = some v) :
+    let w' := (step w (.rmoveassign dst src)).1
+    (∀ h ∈ d.items, ∀ l, (w'.lists l).present h = false) ∧
+    (∀ h, h ∉ d.items → ∀ l, (w'.lists l).present h = (w.lists l).present h) ∧
+    (∀ h ∈ v.items, h ∉ d.items) ∧
+    getRem w' dst = some v ∧ getRem w' src = some ⟨v.target, []⟩ :=
+  move_assign H hne hd hs
+
+/-- **C15 (move construction, swap).** Move-constructing `dst` (not alive before) from the live
+    `src` and swapping two live removers change no list; the records and target go to the
+    destination (move: the source keeps its target and records nothing; swap: exchanged). -/
+theorem C15_transfer (w : RW) (dst src : Nat) (v : Remover) (hs : getRem w src = some v) :
+    (getRem w dst = none →
+      let w' := (step w (.rmovector dst src)).1
+      w'.lists = w.lists ∧ getRem w' dst = some v ∧ getRem w' src = some ⟨v.target, []⟩) ∧
+    (∀ d, getRem w dst = some d →
+      let w' := (step w (.rswap dst src)).1
+      w'.lists = w.lists ∧ getRem w' dst = some v ∧ getRem w' src = some d) :=
+  transfer hs
+
+/-- **C15 (others are never touched).** For an issued handle `h` that was not added through a
+    remover, every operation other than a direct `remove _ h` — in particular every operation of
+    every remover — leaves the presence of `h` in every list unchanged. -/
+theorem C15_others (w : RW) (H : Resp w) (h : Hd) (hv : h ∉ w.via) (hlt : h < w.nextId) (op : ROp)
+    (hop : ∀ l, op ≠ .remove l h) :
+    ∀ l, ((step w op).1.lists l).present h = (w.lists l).present h :=
+  others H hv hlt op hop
+
+/-- **C15 (remove through the remover).** `r.remove(h)` reports `true` exactly when `r` is alive
+    with a target `l`, has recorded `h`, and `h` is present in `l` (needs no invariant).  If it
+    reports `true`, `h` is afterwards present in no list, every other handle is present exactly
+    where it was, and `r` no longer records `h`.  Otherwise the world is unchanged. -/
+theorem C15_remove (w : RW) (r : Nat) (h : Hd) :
+    ((step w (.rremove r h)).2 = .bool true ↔
+      ∃ v l, getRem w r = some v ∧ v.target = some l ∧ h ∈ v.items ∧ (w.lists l).present h = true) ∧
+    (Resp w → (step w (.rremove r h)).2 = .bool true →
+      let w' := (step w (.rremove r h)).1
+      (∀ l, (w'.lists l).present h = false) ∧
+      (∀ x, x ≠ h → ∀ l, (w'.lists l).present x = (w.lists l).present x) ∧
+      (∃ v, getRem w r = some v ∧ getRem w' r = some ⟨v.target, v.items.erase h⟩ ∧
+        h ∉ v.items.erase h)) ∧
+    ((step w (.rremove r h)).2 ≠ .bool true → (step w (.rremove r h)).1 = w) :=
+  ⟨rremove_true_iff w r h, fun H ht => rremove_true H ht, rremove_false w r h⟩
+
+/-- Non-vacuity: a direct listener (handle 0), remover 1 on list 0 adds handle 1, remover 2 (on
+    list 1) is move-assigned from 1, removes handle 1 through itself (`true`), adds handle 2 (to
+    list 0, its new target); both removers are destroyed: handle 0 is still attached, 1 and 2 are
+    not, and no remover is alive. -/
+example :
+    let ops : List ROp := [.append 0 7, .rnew 1 0, .rappend 1 8, .rnew 2 1, .rmoveassign 2 1,
+      .rremove 2 1, .rappend 2 9, .rdestroy 2, .rdestroy 1]
+    (run {} ops).2 = [.handle 0, .unit, .handle 1, .unit, .unit, .bool true, .handle 2, .unit, .unit] ∧
+    (run {} ops).1.rems = [] ∧ (run {} ops).1.via = [2, 1] ∧
+    attached (run {} ops).1 2 0 = true ∧ attached (run {} ops).1 2 1 = false ∧
+    attached (run {} ops).1 2 2 = false := by decide +kernel
+
+end Evp.Rem
